@@ -138,8 +138,9 @@ func c10reset(c *core.Ctx) {
 }
 
 // c10global: package-level variables are immutable after initialisation.
-func c10global(c *core.Ctx) {
-	const R = "C10.global"
+func c10global(c *core.Ctx) { c10globalAs(c, "C10.global") }
+
+func c10globalAs(c *core.Ctx, R string) {
 	c.Rule(R, "every package-level variable in scope is never written after package initialisation (no store to it, to an element of it or to a field of it, and no map update on it, outside init), or is one of the tabled synchronised objects (pools, once-guarded singletons); mutable shared state makes results depend on what was processed before")
 	c.Floor(R, 15)
 	type gv struct {
